@@ -215,7 +215,8 @@ Fixpoint fmt_seg (pv : list (list N * list N)) (x : seg) : bool * bool * list N 
 (* v2version.format_version; None = exception (KeyError / ValueError) *)
 Definition format_version (v : vinfo) (raw : str) : option str :=
   match format_part_values v, parse_segtree raw with
-  | Some pv, Some items => Some (snd (fmt_seg pv (STree items)))
+  (* the root is not an optional group: its parts are always joined (is_optional=False) *)
+  | Some pv, Some items => Some (concat (map (fun y => snd (fmt_seg pv y)) items))
   | _, _ => None
   end.
 
